@@ -11,6 +11,7 @@ from vlib import core
 
 ID = "C05"
 HARNESS_PROP = "C05CLI"
+NEEDS_SK = True
 N_QUICK, N_THOROUGH = 48, 1500
 STRICT_MODEL = False
 SHRINK_ROUNDS = 6
@@ -44,11 +45,21 @@ ENDERS = ("enter", "ctrl-c", "ctrl-x", "alt-a", "f1", "f2", "ctrl-t")
 CHAINS = ["toggle+up", "up+toggle", "toggle+down+toggle", "if-query-empty(toggle)+up", "if-query-empty(abort)+accept",
           "if-query-not-empty(abort)+accept", "if-non-matched(abort)+accept", "if-query-empty(up)+up+accept",
           "if-query-not-empty(toggle)+down", "select-all+accept", "up:2", "up+if-non-matched(unix-line-discard)",
-          "toggle+if-query-not-empty(unix-line-discard)", "toggle-all", "accept(xx)"]
+          "toggle+if-query-not-empty(unix-line-discard)", "toggle-all", "accept(xx)", "append-and-select", "append-and-select"]
 
 
 def gen(rng, tier, n):
     for _ in range(n):
+        if rng.random() < 0.08:
+            # directed: append-and-select with a non-empty query, in single and multi mode, then accept
+            opts = (["multi"] if rng.random() < 0.5 else []) + (["pq"] if rng.random() < 0.5 else []) + ["bind=" + enc("ctrl-t:append-and-select")]
+            items = [rng.choice(WORDS) for _ in range(rng.choice([1, 2, 3]))]
+            keys = [rng.choice("abc") for _ in range(rng.choice([1, 2]))] + ["ctrl-t"]
+            if rng.random() < 0.4:
+                keys.append(rng.choice(["ctrl-p", "tab", "ctrl-u"]))
+            keys += ["enter", "enter", "ctrl-c"]
+            yield "K|%s|%s|%s" % (",".join(opts), ",".join(enc(i) for i in items), " ".join(enc(k) for k in keys))
+            continue
         opts = ["multi"] if rng.random() < 0.6 else []
         if rng.random() < 0.4:
             opts.append("pq")
@@ -123,7 +134,7 @@ def classify(r):
 def run_one(case, slow=1.0):
     p = case.split("|")
     opts = [o for o in p[1].split(",") if o]
-    args = [os.path.join(core.REPO, "target", "release", "sk"), "--no-sort"]
+    args = [core.SK_BIN, "--no-sort"]
     for o in opts:
         if o == "multi":
             args.append("--multi")
@@ -204,10 +215,11 @@ def run_one(case, slow=1.0):
 def python_harness(cases, attempt=0):
     """runs the cases on the real binary (in parallel); attempt > 0 = slower timing"""
     from concurrent.futures import ThreadPoolExecutor
-    with core.Lock("cargo"):
-        rc, out = core.sh(["cargo", "build", "--release", "--offline", "--manifest-path", os.path.join(core.REPO, "Cargo.toml")])
-    if rc != 0:
-        return ["error:sk-release-build-failed"] * len(cases)
+    if not os.path.exists(core.SK_BIN):
+        try:
+            core.build_sk()
+        except core.BuildError:
+            return ["error:sk-build-failed"] * len(cases)
     slow = [1.0, 4.0, 8.0][min(attempt, 2)]
     with ThreadPoolExecutor(max_workers=PY_PARALLEL if attempt == 0 else 4) as ex:
         return list(ex.map(lambda c: run_one(c, slow), cases))
